@@ -244,3 +244,111 @@ impl<E> Drop for ErrorContextGuard<'_, '_, E> {
         let _ = mem::replace(&mut *self.0.context.borrow_mut(), mem::take(&mut self.1));
     }
 }
+
+/// Verification hooks (add-only, compiled only with `--cfg rust_diplomat_diplomat_verif`).
+///
+/// These expose private pieces of the tool to an external harness without touching
+/// any existing code path.
+#[cfg(rust_diplomat_diplomat_verif)]
+pub mod verif_hooks {
+    use super::*;
+    use std::collections::BTreeMap;
+
+    /// The `BackendAttrSupport` a target name selects in [`gen`], plus `other_backend_names`.
+    pub fn attr_support(target_language: &str) -> Option<(hir::BackendAttrSupport, Vec<String>)> {
+        let target_language = target_language.strip_suffix('2').unwrap_or(target_language);
+        Some(match target_language {
+            "c" => (c::attr_support(), vec![]),
+            "cpp" => (cpp::attr_support(), vec![]),
+            "dart" => (dart::attr_support(), vec![]),
+            "js" => (js::attr_support(), vec![]),
+            "demo_gen" => (demo_gen::attr_support(), vec!["js".to_string()]),
+            "kotlin" => (kotlin::attr_support(), vec![]),
+            "py-nanobind" | "nanobind" => (nanobind::attr_support(), vec![]),
+            _ => return None,
+        })
+    }
+
+    /// What [`gen`] would have done, observed in memory.
+    pub struct GenOutput {
+        /// Generated files (empty if lowering failed or the backend reported errors)
+        pub files: BTreeMap<String, String>,
+        /// `(context, message)` for each lowering error
+        pub lowering_errors: Vec<(String, String)>,
+        /// `(context, message)` for each backend error
+        pub backend_errors: Vec<(String, String)>,
+        /// The effective config after the attribute pass and `get_overridden`
+        pub config: Config,
+    }
+
+    /// Same pipeline as [`gen`] on an already parsed file: attribute config pass,
+    /// `get_overridden`, lowering, backend `run` — without touching the disk and
+    /// without `process::exit`.
+    pub fn gen_in_memory(
+        module: &syn::File,
+        entry: &Path,
+        target_language: &str,
+        mut config: Config,
+    ) -> GenOutput {
+        let docs_url_gen = DocsUrlGenerator::with_base_urls(None, Default::default());
+        let target_language = target_language.strip_suffix('2').unwrap_or(target_language);
+        let mut attr_validator = hir::BasicAttributeValidator::new(target_language);
+        let (support, others) =
+            attr_support(target_language).unwrap_or_else(|| panic!("Unknown target: {}", target_language));
+        attr_validator.support = support;
+        attr_validator.other_backend_names = others;
+
+        let cfg = find_top_level_attr(module.items.clone());
+        for attr in cfg {
+            for kvp in attr.key_value_pairs {
+                config.set(&kvp.key, toml_value_from_str(&kvp.value));
+            }
+        }
+        let config = config.get_overridden(target_language);
+        let lowering_config = config.shared_config.lowering_config();
+
+        let tcx = match hir::TypeContext::from_syn(module, lowering_config, attr_validator) {
+            Ok(tcx) => tcx,
+            Err(e) => {
+                return GenOutput {
+                    files: BTreeMap::new(),
+                    lowering_errors: e
+                        .into_iter()
+                        .map(|(ctx, err)| (ctx.to_string(), err.to_string()))
+                        .collect(),
+                    backend_errors: vec![],
+                    config,
+                }
+            }
+        };
+
+        let (files, errors) = match target_language {
+            "c" => c::run(&tcx, &docs_url_gen),
+            "cpp" => cpp::run(&tcx, &docs_url_gen),
+            "dart" => dart::run(&tcx, &docs_url_gen),
+            "js" => js::run(&tcx, config.clone(), &docs_url_gen),
+            "py-nanobind" | "nanobind" => nanobind::run(&tcx, config.clone(), &docs_url_gen),
+            "demo_gen" => demo_gen::run(entry, &tcx, &docs_url_gen, config.clone()),
+            "kotlin" => kotlin::run(&tcx, config.clone(), &docs_url_gen),
+            o => panic!("Unknown target: {}", o),
+        };
+        let backend_errors: Vec<(String, String)> = errors
+            .take_all()
+            .into_iter()
+            .map(|(c, e)| (c.to_string(), e))
+            .collect();
+        let files = if backend_errors.is_empty() {
+            files.take_files().into_iter().collect()
+        } else {
+            BTreeMap::new()
+        };
+        GenOutput {
+            files,
+            lowering_errors: vec![],
+            backend_errors,
+            config,
+        }
+    }
+
+    pub use crate::js::verif_hooks::{js_struct_layouts, JsLayout};
+}
